@@ -12,4 +12,10 @@ PrefixesFull == { <<>>, <<0>>, <<0, 0>>, <<0, 255>>, <<1>>, <<255>>, <<255, 255>
 ValsSmall == {"a", "b"}
 ValsFull == {"", "a", "b"}
 
+\* alphabet of the concurrent level (KVLin.tla): each key stands for a GROUP of real keys
+\* <<g>> \o <<i1, i2>> in the Go engine, so no key may extend another one
+KeysLin == << <<1>>, <<2>>, <<3>> >>
+PrefixesLin == { <<>>, <<2>> }
+PrefixesLinFull == { <<>>, <<1>>, <<2>>, <<3>> }
+
 =============================================================================
